@@ -268,7 +268,12 @@ def select_configs(prop, tier):
 
 def default_configs(tier):
     if tier == "quick":
-        return [C.Config(m) for m in C.quick_macro_sets(os.path.join(INC, "avel"))]
+        # the #if-arm cover with g++ -std=c++11 -O1, plus three points on the compiler / language-level / optimisation axes
+        # (bit_cast, the allocator and several helpers switch on __cplusplus and AVEL_GCC vs AVEL_CLANG)
+        return [C.Config(m) for m in C.quick_macro_sets(os.path.join(INC, "avel"))] + [
+            C.Config(list(C.EVERYTHING), cxx="clang++", std="c++20", opt="-O2"),
+            C.Config(["SSE4_2"], cxx="g++", std="c++20", opt="-O2"),
+            C.Config(["AVX2"], cxx="clang++", std="c++14", opt="-O1")]
     out = [C.Config(m) for m in C.lattice_macro_sets()]
     wide = [[], ["SSE2"], ["SSE4_1"], ["AVX2"], ["AVX512VL", "AVX512BW", "AVX512DQ", "AVX512CD"], list(C.EVERYTHING)]
     for m in wide:
